@@ -274,15 +274,35 @@ def _negated(test):
     return negate(test)
 
 
-def _adder_alternatives(e) -> list:
-    """`self._add_x` -> [(x, [])] ; `self._add_x if T else self._add_y` -> [(x, [T]), (y, ['not T'])]"""
+def _adder_alternatives(e, dicts=None) -> list:
+    """`self._add_x` -> [(x, [], [])] ; `self._add_x if T else self._add_y` -> [(x, [T], []), (y, ['not T'], [])] ;
+    `{'-': self._add_x, '?': self._add_y}.get(<next character>)` -> [(x, [], [(next_char, '-')]), (y, [], [(.., '?')])]"""
     if isinstance(e, ast.Attribute) and e.attr.startswith('_add_') and norm_stmt(e.value) == 'self':
-        return [(e.attr[len('_add_'):], [])]
+        return [(e.attr[len('_add_'):], [], [])]
     if isinstance(e, ast.IfExp):
-        a, b = _adder_alternatives(e.body), _adder_alternatives(e.orelse)
+        a, b = _adder_alternatives(e.body, dicts), _adder_alternatives(e.orelse, dicts)
         if a and b:
             t = norm_stmt(e.test)
-            return [(f_, m + [t]) for f_, m in a] + [(f_, m + ['not ' + t]) for f_, m in b]
+            return [(f_, m + [t], c_) for f_, m, c_ in a] + [(f_, m + ['not ' + t], c_) for f_, m, c_ in b]
+    table, key = None, None
+    if isinstance(e, ast.Call) and isinstance(e.func, ast.Attribute) and e.func.attr == 'get' and e.args:
+        table, key = e.func.value, e.args[0]
+    elif isinstance(e, ast.Subscript):
+        table, key = e.value, e.slice
+    if table is not None:
+        if isinstance(table, ast.Name) and dicts and table.id in dicts:
+            table = dicts[table.id]
+        subj = {'self._parse_char()': 'next_char', 'next_char': 'next_char', 'self._peek()': 'next_char',
+                'cur': 'cur', 'self._current()': 'cur'}.get(norm_stmt(key))
+        if isinstance(table, ast.Dict) and subj is not None:
+            out = []
+            for k_, v_ in zip(table.keys, table.values):
+                ks = _const_str(k_) if k_ is not None else None
+                alts = _adder_alternatives(v_, dicts)
+                if ks is None or not alts:
+                    return []
+                out += [(f_, m, c_ + [(subj, ks)]) for f_, m, c_ in alts]
+            return out
     return []
 
 
@@ -302,13 +322,19 @@ def reader_table(program) -> Dict[str, dict]:
     markers: Dict[str, dict] = {}
     for fname in ('_parse_sequence_start', '_parse_sequence_middle', '_parse_sequence_end'):
         f = reader_func(program, fname)
-        # where the '?' flag of an interval lives: whatever is handed to Interval(ambiguous=...)
-        amb_expr = 'dummy_interval[2]'
+        # where the parts of an open interval live: whatever is handed to Interval(start=, end=, ambiguous=, mods=) --
+        # slots of a scratch list, or plain locals
+        slots = {}
+        ctor = None
         for c_ in ast.walk(f.node):
             if isinstance(c_, ast.Call) and isinstance(c_.func, ast.Name) and c_.func.id == 'Interval':
+                ctor = c_
+                for role_, a_ in zip(('start', 'end', 'ambiguous', 'mods'), c_.args):
+                    slots[role_] = norm_stmt(a_)
                 for kw in c_.keywords:
-                    if kw.arg == 'ambiguous':
-                        amb_expr = norm_stmt(kw.value)
+                    if kw.arg in ('start', 'end', 'ambiguous', 'mods'):
+                        slots[kw.arg] = norm_stmt(kw.value)
+        amb_expr = slots.get('ambiguous', 'dummy_interval[2]')
 
         def visit(block, conds: List[Tuple[str, str]], defs: Dict[str, Tuple[str, str]], extra: List[str]):
             defs = dict(defs)
@@ -324,7 +350,9 @@ def reader_table(program) -> Dict[str, dict]:
                         return
                 # an adder chosen by a conditional expression / bound to a local
                 if isinstance(st, ast.Assign) and len(st.targets) == 1 and isinstance(st.targets[0], ast.Name):
-                    alts = _adder_alternatives(st.value)
+                    if isinstance(st.value, ast.Dict):
+                        dicts[st.targets[0].id] = st.value
+                    alts = _adder_alternatives(st.value, dicts)
                     if alts:
                         adders[st.targets[0].id] = alts
                 if isinstance(st, ast.Assign) and len(st.targets) == 1:
@@ -343,17 +371,29 @@ def reader_table(program) -> Dict[str, dict]:
                     if isinstance(st.targets[0], ast.Attribute) and st.targets[0].attr == '_charge':
                         markers['charge'] = {'conds': list(conds), 'loc': f.loc(st),
                                              'integer': '_parse_integer' in norm_stmt(st.value)}
-                    if norm_stmt(st.targets[0]) == amb_expr and isinstance(st.value, ast.Constant) and \
-                            st.value.value is True:
-                        markers['ambiguous'] = {'conds': list(conds), 'loc': f.loc(st)}
-                    if isinstance(st.targets[0], ast.Name) and st.targets[0].id == 'dummy_interval' and \
-                            isinstance(st.value, (ast.List, ast.Tuple)):
-                        markers['open'] = {'conds': list(conds), 'loc': f.loc(st), 'start': norm_stmt(st.value.elts[0])}
-                    if isinstance(st.targets[0], ast.Subscript) and norm_stmt(st.targets[0].value) == 'dummy_interval' \
-                            and isinstance(st.targets[0].slice, ast.Constant) and st.targets[0].slice.value == 1:
-                        markers['close'] = {'conds': list(conds), 'loc': f.loc(st), 'end': norm_stmt(st.value)}
+                    # (slot, value) pairs this statement writes: x = v ; x[k] = v ; x = [v0, v1, ..] writes x[0], x[1], ..
+                    tgt_txt = norm_stmt(st.targets[0])
+                    writes = [(tgt_txt, st.value)]
+                    if isinstance(st.targets[0], ast.Name) and isinstance(st.value, (ast.List, ast.Tuple)):
+                        writes += [(f'{tgt_txt}[{k2}]', v2) for k2, v2 in enumerate(st.value.elts)]
+                    for slot_, v_ in writes:
+                        is_none = isinstance(v_, ast.Constant) and v_.value is None
+                        if slot_ == amb_expr and isinstance(v_, ast.Constant) and v_.value is True:
+                            markers['ambiguous'] = {'conds': list(conds), 'loc': f.loc(st)}
+                        if slot_ == slots.get('start') and not is_none:
+                            markers['open'] = {'conds': list(conds), 'loc': f.loc(st), 'start': norm_stmt(v_)}
+                        if slot_ == slots.get('end') and not is_none:
+                            markers['close'] = {'conds': list(conds), 'loc': f.loc(st), 'end': norm_stmt(v_)}
+                        if slot_ == slots.get('mods') and _parse_mods_call(v_) is not None and \
+                                not isinstance(st.targets[0], ast.Subscript):
+                            br_ = _parse_mods_call(v_)
+                            rows.setdefault('interval.mods', {'brackets': set(), 'conds': [], 'loc': f.loc(st)})
+                            rows['interval.mods']['brackets'].add(br_[0] + br_[1])
+                            rows['interval.mods']['conds'].append(list(conds))
                 for call in [n for n in ast.walk(st) if isinstance(n, ast.Call)] if not isinstance(
                         st, (ast.If, ast.For, ast.While, ast.Try)) else []:
+                    if call is ctor and 'close' not in markers and 'len(' in slots.get('end', ''):
+                        markers['close'] = {'conds': list(conds), 'loc': f.loc(st), 'end': slots['end']}
                     targets = []
                     if isinstance(call.func, ast.Attribute) and call.func.attr.startswith('_add_') and call.args:
                         targets = [(call.func.attr[len('_add_'):], [])]
@@ -361,7 +401,9 @@ def reader_table(program) -> Dict[str, dict]:
                         targets = adders[call.func.id]
                     elif isinstance(call.func, ast.IfExp) and call.args:
                         targets = _adder_alternatives(call.func)
-                    for feat, more in targets:
+                    for tgt_ in targets:
+                        feat, more = tgt_[0], tgt_[1]
+                        conds_ = conds + (list(tgt_[2]) if len(tgt_) > 2 else [])
                         extra_ = extra + more
                         arg = call.args[0]
                         br = _parse_mods_call(arg)
@@ -373,7 +415,7 @@ def reader_table(program) -> Dict[str, dict]:
                             continue
                         row = rows.setdefault(feat, {'brackets': set(), 'conds': [], 'loc': f.loc(call), 'extra': []})
                         row['brackets'].add(br[0] + br[1])
-                        row['conds'].append(list(conds))
+                        row['conds'].append(list(conds_))
                         row['extra'] += extra_
                 if isinstance(st, ast.If):
                     eqs = _cursor_eq(st.test)
@@ -391,6 +433,7 @@ def reader_table(program) -> Dict[str, dict]:
                 elif isinstance(st, ast.Try):
                     visit(st.body, conds, defs, extra)
         adders: Dict[str, list] = {}
+        dicts: Dict[str, ast.Dict] = {}
         visit(f.node.body, [], {}, [])
     rows['_links'] = links
     rows['_markers'] = markers
@@ -628,21 +671,49 @@ def interval_state(ctx, rep, clause):
             ctor = c_
     if ctor is None:
         raise AnalysisError('_parse_sequence_middle: Interval(...) construction not found')
-    # the branch that opens an interval: where the record is created from a list/tuple display
+    # the branch that opens an interval: where the start handed to Interval(...) is bound to a value -- a scratch record
+    # created from a list display, or a plain local
+    start_arg = None
+    for role_, a_ in zip(('start', 'end', 'ambiguous', 'mods'), ctor.args):
+        if role_ == 'start':
+            start_arg = a_
+    for kw in ctor.keywords:
+        if kw.arg == 'start':
+            start_arg = kw.value
+    record = start_arg.value.id if isinstance(start_arg, ast.Subscript) and isinstance(start_arg.value, ast.Name) else None
+    start_name = record or (start_arg.id if isinstance(start_arg, ast.Name) else None)
     open_body = None
     for x in ast.walk(f.node):
-        if isinstance(x, ast.If) and any(isinstance(st, ast.Assign) and norm_stmt(st.targets[0]) == 'dummy_interval' and
-                                         isinstance(st.value, (ast.List, ast.Tuple)) for st in x.body):
+        if isinstance(x, ast.If) and start_name is not None and any(
+                isinstance(st, ast.Assign) and norm_stmt(st.targets[0]) == start_name and
+                not (isinstance(st.value, ast.Constant) and st.value.value is None) for st in x.body):
             open_body = x.body
     if open_body is None:
         raise AnalysisError('_parse_sequence_middle: the branch that opens an interval was not found')
+    # the branch that closes it: the innermost if-body holding the Interval(...) call
+    close_body = None
+    for x in ast.walk(f.node):
+        if isinstance(x, ast.If):
+            for blk in (x.body, x.orelse):
+                if any(ctor is y for st in blk for y in ast.walk(st)):
+                    close_body = blk
     c = Canon(f.node)
+
+    def binds(st, name) -> bool:
+        return isinstance(st, ast.Assign) and any(
+            isinstance(t, ast.Name) and t.id == name or (isinstance(t, ast.Tuple) and any(
+                isinstance(e_, ast.Name) and e_.id == name for e_ in t.elts)) for t in st.targets)
     for kw in ctor.keywords:
-        names = {y.id for y in ast.walk(kw.value) if isinstance(y, ast.Name) and c.is_local(y.id)} - {'dummy_interval'}
+        names = {y.id for y in ast.walk(kw.value) if isinstance(y, ast.Name) and c.is_local(y.id)} - {record}
         for name in sorted(names):
-            fresh = any(isinstance(st, ast.Assign) and any(isinstance(t, ast.Name) and t.id == name or
-                                                           (isinstance(t, ast.Tuple) and any(isinstance(e_, ast.Name) and e_.id == name for e_ in t.elts))
-                                                           for t in st.targets) for st in open_body)
+            fresh = any(binds(st, name) for st in open_body)
+            if not fresh and close_body is not None:
+                # bound unconditionally in the closing branch itself, before the interval is built
+                for st in close_body:
+                    if any(ctor is y for y in ast.walk(st)):
+                        break
+                    if binds(st, name):
+                        fresh = True
             ob(rep, 'FLD', f.fq, f'Interval({kw.arg}=...) is state of the interval being closed', fresh,
                'bound anew when the interval opens',
                f'`{kw.arg}={norm_stmt(kw.value)}` reads the local `{name}`, which is not bound anew when an interval '
@@ -852,6 +923,10 @@ def index_kinds(ctx, rep, clause):
         # the key under which the modification is filed: self._internal_mods[<key>]
         if isinstance(n, ast.Subscript) and norm_stmt(n.value) == 'self._internal_mods':
             pos = norm_stmt(cf.resolve(n.slice))
+        # ... or self._internal_mods.setdefault(<key>, [])
+        if isinstance(n, ast.Call) and isinstance(n.func, ast.Attribute) and n.func.attr == 'setdefault' and n.args and \
+                norm_stmt(n.func.value) == 'self._internal_mods':
+            pos = norm_stmt(cf.resolve(n.args[0]))
     ob(rep, 'KIND', f.fq, 'a residue modification is attached at len(residues) - 1', pos == 'len(self._amino_acids) - 1',
        'Position of the residue just read', f'attached at {pos}', f.loc(), clause)
     # writer: markers before residue i, once more after the last residue, closings before openings, residue
